@@ -51,8 +51,13 @@ def install(ctx, repo, probes):
         mode = R.canon(repo.CALENDAR.mode)
         if not (R.tp_valid(mode, a) and R.tp_valid(mode, b)):
             return None
+        exact = pair_exact_pts(a, b) or (
+            # quarter units in any precision form, one offset: every float
+            # operation on them is exact as well
+            R.tp_is_dyadic(a, 4) and R.tp_is_dyadic(b, 4) and
+            R.tp_offset_minutes(a) == R.tp_offset_minutes(b))
         return (mode, R.tp_instant(mode, a), R.tp_instant(mode, b),
-                R.tp_key(a), R.tp_key(b), pair_exact_pts(a, b))
+                R.tp_key(a), R.tp_key(b), exact)
 
     def post(snap, args, kwargs, d, exc):
         if snap is None:
@@ -231,6 +236,37 @@ def workload(ctx, repo):
                 ctx.case = case
                 ctx.ev("cases.offset-grid")
                 run_case(ctx, repo, case)
+    # the same local day and hour in two precision forms (hh:mm:ss against
+    # decimal hours / decimal minutes in quarter units), minutes apart
+    for k in range(400 if ctx.tier == "quick" else 1600):
+        if not ctx.mine(k):
+            continue
+        mode = R.MODES[k % 4] if k % 3 == 0 else "gregorian"
+        y = gen.rand_year(rng, -500, 9000)
+        rd = gen.rand_rd(rng, mode, y, bias=0.5)
+        rep = rng.choice(gen.REPS)
+        off = rng.choice(((0, 0), (0, 0), (5, 0), (-3, 0)))
+        h = rng.randrange(24)
+        q = rng.choice((0.25, 0.5, 0.75, 0.0))
+        a = gen.date_kwargs(mode, rep, rd)
+        a.update(gen.zone_kwargs(off))
+        b = gen.date_kwargs(mode, rng.choice(gen.REPS), rd)
+        b.update(gen.zone_kwargs(off))
+        if k % 2:
+            a.update(hour_of_day=h, hour_of_day_decimal=q)
+        else:
+            a.update(hour_of_day=h, minute_of_hour=int(q * 60),
+                     minute_of_hour_decimal=rng.choice((0.5, 0.25, 0.0)))
+        b.update(hour_of_day=h,
+                 minute_of_hour=min(59, max(0, int(q * 60) + rng.choice(
+                     (-1, 0, 1, 2, -14, 16)))),
+                 second_of_minute=rng.choice((0, 0, 30, 59)))
+        if k % 4 < 2:
+            a, b = b, a
+        case = {"op": "pair", "mode": mode, "a": a, "b": b}
+        ctx.case = case
+        ctx.ev("cases.mixed-precision-pair")
+        run_case(ctx, repo, case)
     # pairs less than a second apart (binary fractions of a second: exact)
     for k in range(600 if ctx.tier == "quick" else 2400):
         if not ctx.mine(k):
